@@ -241,6 +241,109 @@ pub fn c18_unpin_side(_s: &mut Src) {}
 #[cfg(not(feature = "object_pinning"))]
 pub fn c18_pin_header(_s: &mut Src) {}
 
+
+// ---------------------------------------------------------------- large-object mark/nursery bits
+
+/// `LargeObjectSpace::test_and_mark` (hook `verif_test_and_mark`): a 2-bit field (mark bit 0,
+/// nursery bit 1).  In a full-heap GC only the mark bit is compared with the wanted state; in a
+/// nursery GC both bits are.  A successful transition writes `value` to the whole field (the
+/// nursery bit is cleared).  Other threads may perform the same transition and rewrite every
+/// other bit of the byte.
+pub struct EnvLos {
+    src: *mut Src,
+    byte: *mut u8,
+    shift: u8,
+    value: u8,
+    cmp: u8,
+    budget: u8,
+    active: bool,
+    other_did_it: bool,
+    neigh: u8,
+    steps: u8,
+}
+pub static mut ENV_LOS: Option<EnvLos> = None;
+
+fn env_step_los(_a: Address) {
+    let e = match unsafe { ENV_LOS.as_mut() } {
+        Some(e) => e,
+        None => return,
+    };
+    if !e.active || e.budget == 0 {
+        return;
+    }
+    let s = unsafe { &mut *e.src };
+    if !s.any_bool() {
+        return;
+    }
+    e.budget -= 1;
+    e.steps += 1;
+    let mask = 0b11u8 << e.shift;
+    unsafe {
+        let cur = *e.byte;
+        let field = (cur >> e.shift) & 0b11;
+        let n = s.any_u8() & !mask;
+        e.neigh = n;
+        let mut f = field;
+        if (field & e.cmp) != e.value && s.any_bool() {
+            f = e.value;
+            e.other_did_it = true;
+        }
+        *e.byte = n | (f << e.shift);
+    }
+}
+
+fn los_case<VM: VMBinding>(s: &mut Src, obj_addr: usize, byte: *mut u8, shift: u8) {
+    let nursery_gc = s.any_bool();
+    let value = s.any_in(0, 1) as u8;
+    let cmp = if nursery_gc { 0b11 } else { 0b01 };
+    let init = unsafe { *byte };
+    let init_field = (init >> shift) & 0b11;
+    unsafe {
+        ENV_LOS = Some(EnvLos { src: s as *mut Src, byte, shift, value, cmp, budget: BUDGET, active: true, other_did_it: false, neigh: init & !(0b11 << shift), steps: 0 });
+        verif_env::STEP = Some(env_step_los);
+    }
+    let obj = unsafe { ObjectReference::from_raw_address_unchecked(Address::from_usize(obj_addr)) };
+    let did = mmtk::verif_export::policy::los_test_and_mark::<VM>(nursery_gc, obj, value);
+    let e = unsafe { ENV_LOS.as_mut().unwrap() };
+    e.active = false;
+    let b = unsafe { *e.byte };
+    let field = (b >> shift) & 0b11;
+    let already = (init_field & cmp) == value;
+    chk!(s, "reports success only if this thread itself performed the transition", !(did && (already || e.other_did_it)));
+    chk!(s, "reports failure only if the object had already been marked", did || already || e.other_did_it);
+    chk!(s, "on return the compared bits are in the wanted state", (field & cmp) == value);
+    chk!(s, "a performed transition leaves the mark state with the nursery bit cleared", !(did || e.other_did_it) || field == value);
+    chk!(s, "an object that was already marked keeps its field", !already || field == init_field);
+    chk!(s, "neighbouring bits of the byte hold what the other threads last wrote", b & !(0b11 << shift) == e.neigh);
+    cov!(s, "this thread performed the transition after interference", did && e.steps >= 1);
+    cov!(s, "another thread performed the transition first", !did && e.other_did_it);
+    cov!(s, "a nursery object is marked in a nursery collection", did && nursery_gc && init_field & 0b10 != 0);
+    cov!(s, "a full-heap collection with the flipped mark state", did && !nursery_gc && value == 0);
+    cov!(s, "neighbouring bits changed between this thread's load and CAS", e.steps >= 2);
+    unsafe {
+        verif_env::STEP = None;
+    }
+}
+
+/// Side LOS bits: 2 bits per *page* (large objects are page-granular), 4 pages per metadata byte.
+/// The spec never touches the object itself, so the pages are addresses only (concrete 16 KiB-
+/// aligned base, symbolic page index).
+pub fn c18_los_side(s: &mut Src) {
+    let mut win = Win::<16>(s.any_bytes::<16>());
+    let base = 0x4000_0000usize;
+    let spec = side_spec_of(<VmA as VMBinding>::VMObjectModel::LOCAL_LOS_MARK_NURSERY_SPEC.as_spec());
+    win.install(&spec, base);
+    let idx = s.any_in(0, 3);
+    los_case::<VmA>(s, base + (idx << spec.log_bytes_in_region), win.0.as_mut_ptr(), 2 * idx as u8);
+}
+
+/// In-header LOS bits (bits 4-5 of the header byte, between the pin bit and the log bit).
+pub fn c18_los_header(s: &mut Src) {
+    let mut o = Obj(s.any_bytes::<64>());
+    let p = o.0.as_mut_ptr();
+    los_case::<VmH>(s, p as usize + 8, unsafe { p.add(8) }, 4);
+}
+
 /// Thorough tier: 5 interfering steps.
 pub fn c18_mark_side_deep(s: &mut Src) {
     unsafe {
@@ -271,6 +374,8 @@ harnesses! {
     #[kani::unwind(6)] #[kani::stub(alloc::fmt::format, crate::env::stub_format)] c18_pin_side; // timeout=900 features=object_pinning
     #[kani::unwind(6)] #[kani::stub(alloc::fmt::format, crate::env::stub_format)] c18_unpin_side; // timeout=900 features=object_pinning
     #[kani::unwind(6)] #[kani::stub(alloc::fmt::format, crate::env::stub_format)] c18_pin_header; // timeout=900 features=object_pinning
+    #[kani::unwind(6)] #[kani::stub(alloc::fmt::format, crate::env::stub_format)] c18_los_side; // timeout=900
+    #[kani::unwind(6)] #[kani::stub(alloc::fmt::format, crate::env::stub_format)] c18_los_header; // timeout=900
     #[kani::unwind(8)] #[kani::stub(alloc::fmt::format, crate::env::stub_format)] c18_mark_side_deep; // tier=thorough timeout=1800
     #[kani::unwind(8)] #[kani::stub(alloc::fmt::format, crate::env::stub_format)] c18_log_header_deep; // tier=thorough timeout=1800
     #[kani::unwind(8)] #[kani::stub(alloc::fmt::format, crate::env::stub_format)] c18_pin_side_deep; // tier=thorough timeout=1800 features=object_pinning
